@@ -373,3 +373,86 @@ func VP_C18_tostring() {
 	vpAssert("C18/toString/parses-back-to-same-number", err2 == nil && vpBigEq(r, x.neg, x.coef, x.exp))
 	vpReach("C18/tostring/done")
 }
+
+func init() {
+	vpHarnesses["VP_C18_roundlarge"] = VP_C18_roundlarge
+}
+
+// C18/roundlarge: the rounding builtins on arguments of LARGE magnitude
+// (16..31 digit integers, ties whose integer part has 17-18 digits): the
+// definitions do not stop at 10^15 / 10^16 (a 64-bit decimal context, a float64
+// or an int64 detour would).
+func VP_C18_roundlarge() {
+	pool := []struct {
+		coef uint64
+		exp  int
+	}{
+		{25, 15}, {1, 16}, {1, 20}, {1, 30}, {9007199254740993, 0}, {9999999999999999, 1},
+		{123456789012345675, -1}, {123456789012345665, -1}, {123456789012345651, -1}, {123456789012345649, -1},
+		{1234567890123456789, 0}, {99999999999999995, -1}, {10000000000000000, 0}, {100000000000000005, -1},
+		{9223372036854775807, 0}, {9223372036854775807, 3}, {18446744073709551615, 0}, {1844674407370955161, -1},
+	}
+	pi := vpChoice("x", len(pool))
+	neg := vpBool("neg")
+	coef, exp := pool[pi].coef, pool[pi].exp
+	mk := func(neg bool, c uint64, e int) *decimal.Big {
+		b := new(decimal.Big).SetUint64(c)
+		b.SetScale(-e)
+		if neg {
+			b.SetSignbit(true) // not Neg: that rounds to the receiver's (16-digit default) context
+		}
+		return b
+	}
+	name := []string{"abs", "ceil", "floor", "round", "roundBank"}[vpChoice("fn", 5)]
+	f, ok := vpBuiltin(name).(func(*decimal.Big) (*decimal.Big, error))
+	vpAssert("C18/roundlarge/builtin-present", ok)
+	if !ok {
+		return
+	}
+	arg := mk(neg, coef, exp)
+	r, err := f(arg)
+	vpObserve("roundlarge", pi, neg, name, vpShowValue(r))
+	vpAssert("C18/roundlarge/no-error", err == nil && r != nil)
+	if err != nil || r == nil {
+		return
+	}
+	eq := func(r *decimal.Big, neg bool, c uint64, e int) bool {
+		return r.IsFinite() && r.Cmp(mk(neg, c, e)) == 0
+	}
+	vpAssert("C18/roundlarge/argument-not-mutated", eq(arg, neg, coef, exp))
+	if name == "abs" {
+		vpAssert("C18/roundlarge/abs-is-magnitude", eq(r, false, coef, exp))
+		vpReach("C18/roundlarge/done")
+		return
+	}
+	if exp >= 0 {
+		vpAssert("C18/roundlarge/"+name+"-integer-unchanged", eq(r, neg, coef, exp))
+		vpReach("C18/roundlarge/done")
+		return
+	}
+	q, rem := coef/10, coef%10 // every fractional pool entry has exp = -1
+	lower, upper := eq(r, neg, q, 0), eq(r, neg, q+1, 0)
+	switch name {
+	case "ceil", "floor":
+		up := (name == "floor") == neg
+		if up && rem > 0 {
+			vpAssert("C18/roundlarge/"+name+"-definition", upper)
+		} else {
+			vpAssert("C18/roundlarge/"+name+"-definition", lower)
+		}
+	default:
+		switch {
+		case rem < 5:
+			vpAssert("C18/roundlarge/"+name+"-nearest", lower)
+		case rem > 5:
+			vpAssert("C18/roundlarge/"+name+"-nearest", upper)
+		case name == "round":
+			vpAssert("C18/roundlarge/round-within-half", lower || upper)
+		case q%2 == 0:
+			vpAssert("C18/roundlarge/roundBank-ties-to-even", lower)
+		default:
+			vpAssert("C18/roundlarge/roundBank-ties-to-even", upper)
+		}
+	}
+	vpReach("C18/roundlarge/done")
+}
